@@ -161,10 +161,13 @@ def rule_sinks(ctx, R):
     # call sites of the pop routine that sit behind the index switch arms 0/1/2 are unreachable for
     # index > 2 (C10.GUARD): walk the call graph without them
     guarded = {}
+    large = _reachable_for_large_index(popb, fb)
     for bi, t in popb.calls():
         ok, arm = _behind_index_arm(popb, bi)
         if ok:
             guarded[bi] = arm
+        elif large is not None and bi not in large:
+            guarded[bi] = "index<=2"
     R.floor("guarded_sites_in_pop_wrap", len(guarded), 6, "call sites of pop_stack_wrap behind index arms 0/1/2")
     seen, sites = cg.reachable_sites([OPTIMIZE], lambda name, bi, t: name == POP_WRAP and bi in guarded)
     n_checked = 0
@@ -229,6 +232,66 @@ def rule_sinks(ctx, R):
         if R.anchor(b is not None, n, "CustomWriter's Write impl"):
             bad = [callee_name(t["f"], fb) for _, t in b.calls() if sink_reason(callee_name(t["f"], fb))]
             R.check(not bad, n, "%s calls no effect sink" % n, b.span, bad)
+
+
+def _reachable_for_large_index(body, fb):
+    """blocks of the pop routine that can execute when its index parameter is > 2: every branch whose condition
+    compares the index parameter with a constant is decided for the abstract value `> 2` (idx == c, idx < c,
+    idx <= c with c <= 2 are false; switch arms 0..2 are not taken); every other branch keeps both successors"""
+    cfg = CFG(body)
+    org = Origins(body, fb)
+    idx = [i for i in range(1, body.argc + 1) if body.lty(i) == "usize"]
+    if len(idx) != 1:
+        return None
+    IDX = ("arg", idx[0])
+
+    def decide(o):
+        # -> True / False / None (unknown)
+        if o[0] == "un" and o[1] == "Not":
+            r = decide(o[2])
+            return None if r is None else (not r)
+        if o[0] == "bin" and o[1] in ("Eq", "Ne", "Lt", "Le", "Gt", "Ge"):
+            a, b_, op = o[2], o[3], o[1]
+            if b_ == IDX and a[0] == "const":
+                a, b_ = b_, a
+                op = {"Lt": "Gt", "Le": "Ge", "Gt": "Lt", "Ge": "Le"}.get(op, op)
+            if a == IDX and b_[0] == "const" and isinstance(b_[2], int):
+                c = b_[2]
+                if op == "Eq" and c <= 2:
+                    return False
+                if op == "Ne" and c <= 2:
+                    return True
+                if op == "Lt" and c <= 3:
+                    return False
+                if op == "Le" and c <= 2:
+                    return False
+                if op == "Gt" and c <= 2:
+                    return True
+                if op == "Ge" and c <= 3:
+                    return True
+        return None
+
+    seen, st = set(), [0]
+    while st:
+        b = st.pop()
+        if b in seen:
+            continue
+        seen.add(b)
+        t = body.blocks[b]["term"]
+        succ = list(cfg.succ[b])
+        if t["k"] == "switch":
+            o = org.of_operand(t["x"], b, "t")
+            if o == IDX:
+                if all(int(v) <= 2 for v, _ in t["arms"]):
+                    succ = [t["otherwise"]]
+            elif t["xty"] == "bool":
+                r = decide(o)
+                if r is not None:
+                    want = 1 if r else 0
+                    tgt = [bb for v, bb in t["arms"] if int(v) == want]
+                    succ = tgt if tgt else [t["otherwise"]]
+        st.extend(x for x in succ if x not in seen)
+    return seen
 
 
 def _behind_index_arm(body, site_block):
@@ -430,6 +493,9 @@ def _descent(fb, body, cfg, vars_, head, loop):
 
 
 def _rooted_field(o, l, body, org, bi, si):
+    # a choice between several children (`node = if c { left } else { right }`) descends on every alternative
+    if isinstance(o, tuple) and o and o[0] == "phi":
+        return all(_rooted_field(x, l, body, org, bi, si) for x in o[1])
     # walk down field/variant/deref chain
     depth = 0
     cur = o
